@@ -1366,7 +1366,7 @@ func c15canon(cs c15Case) string {
 	var b strings.Builder
 	fmt.Fprintf(&b, "%s|%d|%d|%s|%s|%s|%v", cs.Kind, cs.V, cs.V2, cs.From, cs.To, c15vtToks(cs.Types), cs.Values)
 	if cs.Rpt != nil {
-		fmt.Fprintf(&b, "|%s %v %v %s %v", cs.Rpt.Mode, cs.Rpt.CLI, cs.Rpt.Reverse, cs.Rpt.RootKey, cs.Rpt.DivideBy)
+		fmt.Fprintf(&b, "|%s %v %v %s %v %v %v", cs.Rpt.Mode, cs.Rpt.CLI, cs.Rpt.Reverse, cs.Rpt.RootKey, cs.Rpt.DivideBy, cs.Rpt.DurationNanos, cs.Rpt.NodeFraction)
 		for _, s := range cs.Rpt.Samples {
 			fmt.Fprintf(&b, " %d%v", s.Value, s.Labels)
 		}
